@@ -286,13 +286,13 @@ class Repo:
 
 def own_nodes(f):
     """all AST nodes of function ``f`` excluding the bodies of nested defs/classes"""
-    todo = list(ast.iter_child_nodes(f))
+    todo = list(ast.iter_child_nodes(f))[::-1]
     while todo:
         n = todo.pop()
         yield n
         if isinstance(n, (ast.FunctionDef, ast.AsyncFunctionDef, ast.ClassDef, ast.Lambda)):
             continue
-        todo.extend(ast.iter_child_nodes(n))
+        todo.extend(list(ast.iter_child_nodes(n))[::-1])  # pre-order, source order
 
 
 def calls_in(node, own=True):
